@@ -64,9 +64,9 @@ PROPS.update({
     },
     "C08": {
         "level": "exploration",
-        "rule": "seeded graphs (8 kinds, 14 families, n in 1..8, unweighted / exact / generic incl. decimal weights such as 0.2, 0.7) x every source x target in {None, each node} x cutoff in {None, every distinct distance, midpoints, beyond the maximum} x first_only x with_paths: each optioned single_source answer is compared with the unrestricted all-paths answer of the implementation itself; all_pairs and multi_source(all nodes) are compared with per-node single_source; undirected symmetry, triangle inequality and get_all_shortest_paths_involving are checked on the same answers. Non-trivial = n>=3 and >=1 edge; distinct = distinct graph hashes." + BOUNDARY,
+        "rule": "seeded graphs (8 kinds, 14 families, n in 1..8, unweighted / exact / generic incl. decimal weights such as 0.2, 0.7) x every source x target in {None, each node} x cutoff in {None, every distinct distance, midpoints, beyond the maximum} x first_only x with_paths: each optioned single_source answer is compared with the unrestricted all-paths answer of the implementation itself; all_pairs and multi_source(all nodes) are compared with per-node single_source; undirected symmetry, triangle inequality and get_all_shortest_paths_involving are checked on the same answers; every 100th case is a 70..140-node graph (hub, threshold node count or an 'improvement cascade' in which a chain of hubs strictly improves every leaf several times) where six optioned searches per source must agree with the distance-only search. Non-trivial = n>=3 and >=1 edge; distinct = distinct graph hashes." + BOUNDARY,
         "assumptions": COMMON + ["metamorphic: the implementation is compared with itself (absolute correctness of the unrestricted answer is C04's business)"],
-        "min_reach": {"any": ["reach:involving-nonempty"]},
+        "min_reach": {"any": ["reach:involving-nonempty", "reach:graph-with-70-or-more-nodes", "reach:improvement-cascade"]},
     },
 })
 
@@ -129,9 +129,9 @@ PROPS.update({
     "C17": {
         "custom": "c17",
         "level": "exploration",
-        "rule": "case list: seeded fast_gnp_random_graph (n up to 600), seeded louvain_partitions / louvain_communities on tie-rich graphs (paths, cycles, complete, bipartite, grids, ladders, stars, barbells, plus G(n,p); unweighted, exact, symmetric-pattern, generic and 2^520-scaled weights; seeds incl. u64::MAX, u64::MAX-1, 2^63), and the discrete outputs of non-randomised algorithms (all_pairs distances bits + path sets, components, triangles, generalized degree, bfs partitions). Each case is repeated 10 (30) times in one process - the graph is rebuilt each time so every hash table is re-keyed, and repetitions run under caller-installed rayon pools of 1, 2, 3 and 16 threads - and its canonical result (sets of sets, sorted) must not change; then 3 (6) passes of fresh processes with RAYON_NUM_THREADS in {1,2,16,...} compute a digest per (case, function) and the digests must agree. Non-trivial = every case; distinct = distinct case indexes.",
+        "rule": "case list: seeded fast_gnp_random_graph (n up to 600), seeded louvain_partitions / louvain_communities on tie-rich graphs (paths, cycles, complete, bipartite, grids, ladders, stars, barbells, plus G(n,p); unweighted, exact, symmetric-pattern, generic and 2^520-scaled weights; seeds incl. u64::MAX, u64::MAX-1, 2^63), and the discrete outputs of non-randomised algorithms (all_pairs distances bits + path sets, components, triangles, generalized degree, bfs partitions). A sweep of 150 000 (1 500 000) tiny graphs (3..7 nodes) with arbitrary real weights runs seeded louvain_partitions four times each (inputs with a gain that is zero up to rounding are rare but then order-of-summation dependent). Each case is repeated 10 (30) times in one process - the graph is rebuilt each time so every hash table is re-keyed, and repetitions run under caller-installed rayon pools of 1, 2, 3 and 16 threads - and its canonical result (sets of sets, sorted) must not change; then 3 (6) passes of fresh processes with RAYON_NUM_THREADS in {1,2,16,...} compute a digest per (case, function) and the digests must agree. Non-trivial = every case; distinct = distinct case indexes.",
         "assumptions": COMMON + ["floating-point outputs of non-randomised algorithms are not part of the cross-process digests (rounding of sums is allowed by the statement)", "hash iteration order cannot be forced; reach comes from re-keying (every HashMap::new draws new keys) across 10-30 repetitions and 3-6 processes"],
-        "min_reach": {"any": ["reach:louvain-on-tie-rich-graph", "reach:call-under-pool-of-16-threads", "reach:call-under-pool-of-1-threads", "reach:fresh-processes-compared", "cases:kind0", "reach:louvain-with-huge-dyadic-weights"]},
+        "min_reach": {"any": ["reach:louvain-on-tie-rich-graph", "reach:call-under-pool-of-16-threads", "reach:call-under-pool-of-1-threads", "reach:fresh-processes-compared", "cases:kind0", "reach:louvain-with-huge-dyadic-weights", "reach:small-real-weighted-louvain-inputs"]},
     },
 })
 
